@@ -64,6 +64,7 @@ Init0(props) ==
     runNo   |-> 0,           \* number of run() calls so far
     rstack  |-> << >>,       \* saved state of outer run() calls (run() re-entered from an idle item)
     applied |-> TRUE,        \* has this run's instant taken effect yet? (it does after the idle item)
+    expArg  |-> 0,           \* a ret_some_to! Ret was just dropped unused: its closure (fixed arguments) goes now
     argdrop |-> {},          \* Rets whose fixed arguments (ret_to!/ret_some_to!) have been released
     preTop  |-> {},          \* items that existed when the current top-level item started executing
     mustDrop|-> {},          \* (after a caught panic) items the panicking top-level item had submitted: still the Stakker's
@@ -518,7 +519,9 @@ ApplyRunEnd(st00, e) ==
            \cup B(e.ret # (s0.idleQ # << >>), "C06", "run() return value disagrees with idle backlog")
            \cup B(e.now # s0.now, "C15", "now() after run differs from the greatest instant passed in")
            \cup B(late # {}, "C08", "timer not fired by a run at least one step past its deadline")
-           \cup B(fl # {}, "C02", "held Prep-time calls not flushed when the actor became Ready"))
+           \cup B(fl # {}, "C02", "held Prep-time calls not flushed when the actor became Ready")
+           \cup B(\E a \in fl : \E i \in 1..Len(s0.actors[a].held) : s0.actors[a].held[i].k = "retcall", "C05",
+                   "ret_to delivery held for a Prep actor was lost when the actor became Ready"))
 
 \* ---- timers
 ApplyTAdd(st, e) ==
@@ -731,6 +734,7 @@ RetFire(st, rid, has, val) ==
       s1 == [st EXCEPT !.rets[rid].s = IF has THEN "used" ELSE "dropped"]
   IN IF r.kind = "plain" \/ (r.kind = "somedo" /\ has) THEN [s1 EXCEPT !.expcb = Append(@, <<rid, has, val>>)]
      ELSE IF r.kind = "somedo" THEN s1
+     ELSE IF r.kind = "someto" /\ ~has THEN [s1 EXCEPT !.rets[rid].cbs = @ + 1, !.expArg = rid]
      ELSE IF r.kind \in {"to", "toprep"} \/ has
      THEN AppendMain([s1 EXCEPT !.rets[rid].cbs = @ + 1],
                      [Entry("retcall", rid, r.aid, r.kind = "toprep", Tag(st)) EXCEPT !.has = has, !.val = val])
@@ -1023,6 +1027,14 @@ Apply1(st, e) ==
          ELSE R(st, {})
     [] OTHER -> R(st, {})     \* keepown, keepret, refstorm, dh, dhe, nop, endcase, ...
 
-Apply(st, e) == IF st.boomed THEN ApplyBoomed(st, e) ELSE Apply1(st, e)
+Apply2(st, e) == IF st.boomed THEN ApplyBoomed(st, e) ELSE Apply1(st, e)
+
+\* dropping an unused ret_some_to! Ret releases its closure there and then (nothing is queued for None)
+Apply(st, e) ==
+  IF st.expArg # 0 /\ e.e # "case"
+  THEN LET r == Apply2([st EXCEPT !.expArg = 0], e)
+       IN R(r.st, r.bad \cup B(~(e.e = "argdrop" /\ e.rid = st.expArg), "C05",
+                               "closure / fixed arguments of a ret_some_to! Ret not released when the Ret was dropped unused"))
+  ELSE Apply2(st, e)
 
 =============================================================================
